@@ -80,6 +80,7 @@ structure Worker where
   accepted : List Inv := []   -- ghost: everything put into the queue, newest first
   handled : List Inv := []    -- ghost: everything given to the handler, newest first
   final : Bool := false       -- invHandlersFinal: the invocation's last (non-progressive) message was received
+  spArmed : Bool := false     -- the handler is inside SendProgress, past the progGate lookup
   deriving Repr, Inhabited
 
 inductive Out where
@@ -91,6 +92,8 @@ inductive Out where
   | lost (w : Nat) (i : Inv)                 -- queued after the worker stopped reading
   | repeated (req : Nat)                     -- INVOCATION for an invocation whose final message was already received: dropped
   | abandoned (w : Nat) (i : Inv)            -- the loop gave up waiting for room in the queue
+  | progressSent (w : Nat)                   -- ghost: SendProgress of worker w's handler sent its YIELD
+  | progressRefused (w : Nat)                -- SendProgress returned ErrCallerNoProg / ErrNotConn
   deriving Repr, Inhabited
 
 /-- Regenerated: `invHandlersFinal` is consulted for a live queue, set for every non-progressive
@@ -155,6 +158,10 @@ inductive Ev where
   | outerDone (w : Nat)
   | outerAnswer (w : Nat) (skip : Bool)
   | invTimeout (w : Nat)
+  -- the handler of worker w calls SendProgress (application code, while it runs)
+  | spCheck (w : Nat)        -- the ctx value and `c.progGate[req]` lookups
+  | spSend (w : Nat)         -- `select { case c.sess.Send() <- yield:`
+  | spAbandon (w : Nat)      -- `case <-ctx.Done(): }`
   deriving Repr, Inhabited
 
 /-- `cleanupInvHandlersQueue`: forget the queue and drain it. -/
@@ -312,6 +319,22 @@ def step (cfg : Cfg) (st : State) (ev : Ev) : Option State :=
     match x.deadline, x.ctx with
     | some d, none => if w < st.n && st.now ≥ d then some (st.setW w { x with ctx := some .deadline }) else none
     | _, _ => none
+  | .spCheck w =>
+    let x := st.ws w
+    match x.inner with
+    | .running _ =>
+      if x.spArmed then none
+      else if x.progOK && st.progGate x.req then some (st.setW w { x with spArmed := true })
+      else some (st.emit (.progressRefused w))
+    | _ => none
+  | .spSend w =>
+    let x := st.ws w
+    if x.spArmed then some (((st.setW w { x with spArmed := false }).emit (.send (.yield x.req true))).emit (.progressSent w))
+    else none
+  | .spAbandon w =>
+    let x := st.ws w
+    if x.spArmed && x.ctx.isSome then some ((st.setW w { x with spArmed := false }).emit (.progressRefused w))
+    else none
 
 def steps (cfg : Cfg) (st : State) : List Ev → Option State
   | [] => some st
